@@ -52,24 +52,22 @@ fn start(cfg: &Cfg, ctx: Arc<Ctx>, port: u16) -> Server {
         .with_websocket_route("/w", ws_handler);
     let addr = if cfg.bind.contains(':') { format!("[{}]:{}", cfg.bind, port) } else { format!("{}:{}", cfg.bind, port) };
     let ctx2 = ctx.clone();
+    let bind = cfg.bind.clone();
     std::thread::spawn(move || {
         let r = std::panic::catch_unwind(std::panic::AssertUnwindSafe(move || app.run(addr).is_ok()));
-        ctx2.record("Run_Return", "main", -1, if matches!(r, Ok(true)) { 1 } else { 0 }, "");
+        // Run_Return, then the same address is bound again at once
+        after_return(&ctx2, &bind, port, matches!(r, Ok(true)));
     });
     let drop_it = cfg.sigkind == "drop";
     let mut tx = Some(tx);
-    let mut keep: Option<mpsc::Sender<()>> = None;
     Server {
         signal: Box::new(move || {
-            if let Some(t) = tx.take() {
-                if drop_it {
-                    drop(t);
-                } else {
-                    let _ = t.send(());
-                    keep = Some(t);
-                }
+            if drop_it {
+                tx.take();
+            } else if let Some(t) = tx.as_ref() {
+                // a second signal finds the receiver gone once run has consumed the first: the error is ignored
+                let _ = t.send(());
             }
-            let _ = &keep;
         }),
     }
 }
